@@ -9,6 +9,7 @@ import (
 	"verifharness/props/c02"
 	"verifharness/props/c05"
 	"verifharness/props/c09"
+	"verifharness/props/c11"
 )
 
 func main() {
@@ -25,6 +26,8 @@ func main() {
 		out = c09.RunOps(d.Ops)
 	case "C05":
 		out = c05.RunOps(d.Ops)
+	case "C11":
+		out = c11.RunOps(d.Ops)
 	}
 	for i, op := range d.Ops {
 		fmt.Printf("%.150s\n    => %.600s\n", op, out[i])
